@@ -39,7 +39,7 @@ func VerifC04Tampered() {
 		return
 	}
 	t := victim.Copy()
-	field := vstub.NdChoice("field", 9)
+	field := vstub.NdChoice("field", 10)
 	switch field {
 	case 0:
 		t.SetPayload(append([]byte{vstub.NdByte("newPayload")}, victim.GetPayload()...))
@@ -63,7 +63,12 @@ func VerifC04Tampered() {
 		// only the claimed address is changed
 	}
 	readdressed := false
-	if field == 8 {
+	if field == 9 {
+		// the claimed address is an ALIAS of the genuine one: same multihash digest,
+		// another codec (raw instead of dag-cbor); block stores are keyed by digest
+		t.SetHash(cid.NewCidV1(cid.Raw, victim.GetHash().Hash()))
+		vstub.Cover("codec-alias")
+	} else if field == 8 {
 		t.SetHash(vstub.MkCid(57))
 	} else if vstub.NdChoice("readdress", 2) == 1 {
 		readdressed = true
